@@ -72,6 +72,8 @@ fn history(s: &Session, seed: u64, len: usize, ch: &mut Chooser) -> Result<Strin
     let mut server = s.server.clone();
     let mut challenges: Vec<[u8; 16]> = vec![*server.reconnect_challenge_data()];
     let mut earlier: Vec<([u8; 16], [u8; 20])> = vec![];
+    // honest pairs of earlier attempts that were NOT sent then (the adversary presented something else and kept them)
+    let mut held_back: Vec<([u8; 16], [u8; 20])> = vec![];
     let mut label = String::new();
     for attempt in 0..len {
         // deviation: the application keeps going with a COPY of the server object (sessions are stored in maps and cloned
@@ -103,7 +105,7 @@ fn history(s: &Session, seed: u64, len: usize, ch: &mut Chooser) -> Result<Strin
         // adversary alphabet
         let n_replay = earlier.len();
         let n_stale = challenges.len() - 1;
-        let n = 1 + n_replay + n_stale + 40 + 2 + 160 + 128 + 3;
+        let n = 1 + n_replay + n_stale + 40 + 2 + 160 + 128 + 3 + held_back.len();
         let c = ch.pick(n, "attempt");
         let (cd, proof, what): ([u8; 16], [u8; 20], String) = if c == 0 {
             (honest.challenge_data, honest.proof, "honest".into())
@@ -146,12 +148,18 @@ fn history(s: &Session, seed: u64, len: usize, ch: &mut Chooser) -> Result<Strin
             let mut d = honest.challenge_data;
             d[bit / 8] ^= 1 << (bit % 8);
             (d, honest.proof, format!("client-data-bit{bit}"))
-        } else {
+        } else if c <= n_replay + n_stale + 42 + 160 + 128 + 3 {
             // client data of a special shape with the RIGHT proof for it (must be accepted): equal to the
             // server challenge on offer, all zero, all ones
             let which = c - (n_replay + n_stale + 42 + 160 + 128) - 1;
             let d: [u8; 16] = [current, [0u8; 16], [0xFF; 16]][which];
             (d, reconnect_proof(&s.user_norm, &d, &current, &s.k), format!("right-proof-for-special-client-data#{which}"))
+        } else {
+            // the honest pair of an earlier attempt, held back then (the same client data was presented with a damaged
+            // proof, or something else was): right for the challenge of that attempt, not for the one on offer now
+            let j = c - (n_replay + n_stale + 42 + 160 + 128 + 3) - 1;
+            let (d, p) = held_back[j];
+            (d, p, format!("held-back-honest-pair#{j}"))
         };
         // the server's refresh draw: fresh by default, or (deviation) a repeat of an earlier challenge value
         let r = ch.pick(1 + challenges.len() + 2, "refresh");
@@ -191,6 +199,9 @@ fn history(s: &Session, seed: u64, len: usize, ch: &mut Chooser) -> Result<Strin
         }
         let _ = drew_expected; // identity of nonce and drawn bytes is recorded by C15, not judged here
         earlier.push((cd, proof));
+        if (cd, proof) != (honest.challenge_data, honest.proof) {
+            held_back.push((honest.challenge_data, honest.proof));
+        }
         challenges.push(after);
         label.push(if got { 'A' } else { 'R' });
     }
@@ -435,7 +446,7 @@ pub fn run(tier: Tier, seed: u64) -> i32 {
     let total_exec = total_exec + report.get("long_history_attempts");
     report.set("evaluations", json!(total_exec));
     report.set("distinct_nontrivial", json!(total_exec.saturating_sub(ss.len() as u64 * plans.len() as u64)));
-    report.set("rule", json!("every history of the stated length in which at most d attempts/refreshes deviate from {honest proof for the current challenge, fresh refresh}; per attempt the adversary alphabet is {replay of each earlier pair, proof for each stale challenge, 40 wrong-key variants, 2 wrong-username variants, 160 proof bit flips, 128 client-data bit flips}, per refresh {fresh, repeat of each earlier challenge, all-zero, all-ones}, before each attempt {go on with the same server object, go on with a clone of it}; distinct_nontrivial = executions with at least one deviation"));
+    report.set("rule", json!("every history of the stated length in which at most d attempts/refreshes deviate from {honest proof for the current challenge, fresh refresh}; per attempt the adversary alphabet is {replay of each earlier pair, proof for each stale challenge, 40 wrong-key variants, 2 wrong-username variants, 160 proof bit flips, 128 client-data bit flips, right proof for 3 special client data, the honest pair of each earlier attempt that was held back then}, per refresh {fresh, repeat of each earlier challenge, all-zero, all-ones}, before each attempt {go on with the same server object, go on with a clone of it}; distinct_nontrivial = executions with at least one deviation"));
     report.set("states", json!(report.get("choice_points")));
     report.set("transitions", json!(report.get("choice_points")));
     report.set("traces_validated_against_impl", json!(total_exec));
